@@ -144,7 +144,10 @@ func init() {
 		runHistories(r, profile{Hostile: 35, Faults: 25, Attack: 15, Logout: 8, Ticks: 15, OddRequest: true, Histories: scale(r, 60, 1500), Length: 45}, histRule)
 	}
 	checks["C15"] = func(r *Run) {
-		discoveryThroughFilter(r, "[C15]")
+		storeCrashProbe(r, "[C15]")
+		if r.unknownViolations() == 0 {
+			discoveryThroughFilter(r, "[C15]")
+		}
 		if r.unknownViolations() > 0 {
 			r.Finish("endpoint discovery failing and recovering under a long-lived filter")
 			return
@@ -199,7 +202,7 @@ func init() {
 				}
 				c := genCfg(r, false, n)
 				c.Store = store
-				n += exploreSchedules(r, schedScenario{Name: store + "/" + strings.Join(th, "+"), Cfg: c, Threads: th}, scale(r, 120, 2000))
+				n += exploreSchedules(r, schedScenario{Name: store + "/" + strings.Join(th, "+"), Cfg: c, Threads: th}, scale(r, 90, 2000))
 			}
 		}
 		r.Extra["interleavings_executed"] = n
@@ -214,6 +217,9 @@ func init() {
 		}
 		if r.unknownViolations() == 0 {
 			cookielessCallback(r, "C04")
+		}
+		if r.unknownViolations() == 0 {
+			systemReplay(r, "[C04]")
 		}
 		if r.unknownViolations() == 0 {
 			systemRotation(r, "[C04]") // a long-lived filter, the Secret rotated between the redirect and the callback
